@@ -77,6 +77,7 @@ fn interval_case(l: Vec<i64>, r: Vec<i64>, lower: i64, upper: i64, bound: usize,
         nontrivial: !l.is_empty() && !r.is_empty(),
         unbounded: false,
         loop_body: false,
+        sometimes: vec![],
     }
 }
 
